@@ -37,6 +37,11 @@
 #include <shark/Models/Kernels/LinearKernel.h>
 #include <shark/Models/Kernels/GaussianRbfKernel.h>
 #include <shark/Models/Kernels/KernelHelpers.h>
+#include <shark/Models/Kernels/ProductKernel.h>
+#include <shark/Models/Kernels/WeightedSumKernel.h>
+#include <shark/Models/Kernels/NormalizedKernel.h>
+#include <shark/Models/Kernels/PolynomialKernel.h>
+#include <shark/Models/Kernels/ScaledKernel.h>
 #include <shark/LinAlg/KernelMatrix.h>
 #include <shark/Algorithms/NearestNeighbors/SimpleNearestNeighbors.h>
 #include <shark/Algorithms/Trainers/RFTrainer.h>
@@ -104,9 +109,26 @@ static void mode_snn(std::size_t n, std::size_t bs, std::size_t q, std::size_t k
 	printf("snn.inconsistent_pairs %zu\n", bad);
 }
 
+// Gram assembly shares ONE kernel object between all threads: every kernel usable there must evaluate batches without
+// writing to the object (composite kernels included)
+template<class K> static void gram_of(char const* name, K& k, Data<RealVector> const& a, Data<RealVector> const& b){
+	RealMatrix G = calculateRegularizedKernelMatrix(k, a, 0.5); RealMatrix M = calculateMixedKernelMatrix(k, a, b);
+	double s = 0, t = 0; std::size_t c = 0;
+	for(std::size_t i = 0; i != G.size1(); ++i) for(std::size_t j = 0; j != G.size2(); ++j) s += double(++c % 7 + 1) * G(i,j);
+	for(std::size_t i = 0; i != M.size1(); ++i) for(std::size_t j = 0; j != M.size2(); ++j) t += double(++c % 5 + 1) * M(i,j);
+	printf("gram.%s.regularized %a\n", name, s); printf("gram.%s.mixed %a\n", name, t);
+}
 static void mode_tol(std::size_t n, std::size_t bs){
 	std::size_t d = 3;
 	auto in = points(n, d, -8, 8, 0.25);
+	{ Data<RealVector> da = createDataFromRange(in, bs); auto in2 = points(n / 2 + 2, d, -4, 4, 0.5); Data<RealVector> db = createDataFromRange(in2, bs > 1 ? bs - 1 : 1);
+	  LinearKernel<> lin; PolynomialKernel<> poly(2, 1.0); GaussianRbfKernel<> rbf(0.125);
+	  ProductKernel<RealVector> prod(&lin, &poly); gram_of("product", prod, da, db);
+	  std::vector<AbstractKernelFunction<RealVector>*> ks; ks.push_back(&lin); ks.push_back(&rbf); ks.push_back(&poly);
+	  WeightedSumKernel<RealVector> wsum(ks); gram_of("weightedsum", wsum, da, db);
+	  NormalizedKernel<RealVector> norm(&poly); gram_of("normalized", norm, da, db);
+	  ScaledKernel<RealVector> scaled(&rbf, 3.0); gram_of("scaled", scaled, da, db);
+	  std::vector<AbstractKernelFunction<RealVector>*> ks3(ks); ProductKernel<RealVector> prod3(ks3); gram_of("product3", prod3, da, db); }
 	std::vector<unsigned int> lab(n); for(auto& x : lab) x = rnd(3);
 	ClassificationDataset cdata = createLabeledDataFromRange(in, lab, bs);
 	{ GaussianRbfKernel<> k(0.3); KernelTargetAlignment<RealVector,unsigned int> kta(cdata, &k);
@@ -127,6 +149,17 @@ static void mode_tol(std::size_t n, std::size_t bs){
 	  Data<RealVector> votes = rf.decisionFunction()(cdata.inputs());
 	  printf("rf.votes"); for(auto const& x : votes.elements()) for(double y : x) printf(" %a", y); printf("\n");
 	  printf("rf.trees %zu\n", rf.numberOfModels()); }
+	// out-of-bag error and feature importances pair every tree with ITS out-of-bag set: both must not depend on the order in
+	// which the threads deliver the trees (classification and regression forests)
+	{ random::globalRng.seed(4712); RFTrainer<unsigned int> tr(true, true); tr.setNTrees(12); RFClassifier<unsigned int> rf; tr.train(rf, cdata);
+	  printf("rf.cls.oob %a\n", rf.OOBerror()); pv("rf.cls.importances", rf.featureImportances()); }
+	{ random::globalRng.seed(4713); auto tg = points(n, 1, -3, 3, 0.25);
+	  LabeledData<RealVector,RealVector> rdata = createLabeledDataFromRange(in, tg, bs);
+	  RFTrainer<RealVector> tr(true, true); tr.setNTrees(12); RFClassifier<RealVector> rf;
+	  static_cast<AbstractWeightedTrainer<RFClassifier<RealVector> >&>(tr).train(rf, rdata);   // the unweighted overload is hidden in this specialisation
+	  printf("rf.reg.oob %a\n", rf.OOBerror()); pv("rf.reg.importances", rf.featureImportances());
+	  Data<RealVector> pr = rf(rdata.inputs()); double s = 0; for(auto const& x : pr.elements()) s += x(0);
+	  printf("rf.reg.meanprediction %a\n", s / n); }
 }
 
 static void mode_f7(std::size_t n, std::size_t bs){
